@@ -30,7 +30,7 @@ import (
 )
 
 // vfC01Settle is how long a deviating outcome is retried after a change.
-const vfC01Settle = 4 * time.Second
+const vfC01Settle = 20 * time.Second
 
 func TestVFC01Runtime(t *testing.T) {
 	vfkit.Begin(t)
